@@ -18,10 +18,10 @@ import inspect
 import os
 import sys
 from fractions import Fraction
-from .sorts import (Int, Real, Float, Bool, Str, CSet, Ballot, Profile, Seq, Opt, Dict, Tup, Obj, NoneS)  # noqa: F401
+from .sorts import (Int, Real, Float, Bool, Str, CSet, Ballot, Profile, Seq, Opt, Dict, Tup, Obj, NoneS, Fn, StateRef)  # noqa: F401
 
 __all__ = ["contract", "spec", "REGISTRY", "Int", "Real", "Float", "Bool", "Str", "CSet", "Ballot", "Profile", "Seq",
-           "Opt", "Dict", "Tup", "Obj", "NoneS", "implies", "Fraction", "lemma", "floor", "div"]
+           "Opt", "Dict", "Tup", "Obj", "NoneS", "Fn", "StateRef", "implies", "Fraction", "lemma", "floor", "div", "dsum"]
 
 
 def implies(a, b):
@@ -31,6 +31,10 @@ def implies(a, b):
 def floor(x):
     import math
     return math.floor(x)
+
+
+def dsum(d):
+    return sum(d.values(), Fraction(0))
 
 
 def div(a, b):
@@ -162,6 +166,15 @@ class Registry:
                                     return self._follow_import(c, n, a.name, depth + 1)
         return None
 
+    def lookup(self, rel, qual, selfcls=None):
+        """contract of a function; for methods a receiver-specialised contract wins (searched along the MRO)"""
+        if selfcls is not None:
+            for cname, _, _ in self.mro(selfcls):
+                i = self.contracts.get((rel, qual + "@" + cname))
+                if i is not None:
+                    return i
+        return self.contracts.get((rel, qual))
+
     def class_node(self, clsname):
         """find a repo class by name (searching the elections / models modules)"""
         from .core import module_ast, SRC
@@ -215,7 +228,13 @@ REGISTRY = Registry()
 def contract(relpath, qualname, props=(), **opts):
     def deco(cls):
         info = ContractInfo(cls, relpath, qualname, props, opts)
-        REGISTRY.contracts[(relpath, qualname)] = info
+        recv = opts.get("receiver")
+        if recv:
+            # specialisation of a base-class method contract for the listed receiver classes
+            for r in recv:
+                REGISTRY.contracts[(relpath, qualname + "@" + r)] = info
+        else:
+            REGISTRY.contracts[(relpath, qualname)] = info
         cls._info = info
         return cls
     return deco
